@@ -228,6 +228,23 @@ macro_rules! impl_flatten {
       let mut outer_val: $subject<Val, i64> = <$subject<Val, i64>>::default();
       let by_val = via != "mergeall";
       let sub: $box_sub = match (via.as_str(), &limit) {
+        // field `outer0 k`: the outer stream hands out inner k SYNCHRONOUSLY while it is being subscribed, then it is the hot
+        // subject (`subject.start_with(vec![inner k])`): the operator's own bookkeeping of the outer subscription must not
+        // depend on who registers first (no model: oracle only)
+        ("mergeall", Limit::N(n)) if case.has("outer0") => <$box_sub>::new(
+          outer_obs
+            .clone()
+            .start_with(vec![inners[case.field("outer0")[0].nat()].clone()])
+            .$merge_all(*n)
+            .actual_subscribe($probe(log.clone())),
+        ),
+        ("mergeall", Limit::Inf) if case.has("outer0") => <$box_sub>::new(
+          outer_obs
+            .clone()
+            .start_with(vec![inners[case.field("outer0")[0].nat()].clone()])
+            .$merge_all(usize::MAX)
+            .actual_subscribe($probe(log.clone())),
+        ),
         ("mergeall", Limit::N(n)) => {
           <$box_sub>::new(outer_obs.clone().$merge_all(*n).actual_subscribe($probe(log.clone())))
         }
@@ -262,6 +279,10 @@ macro_rules! impl_flatten {
       };
       let mut sub = Some(sub);
       let drain = $drain;
+      if case.has("outer0") {
+        // what the synchronously handed-out inner delivered during the subscription itself belongs to no event
+        let _ = drain(&log);
+      }
       for (k, ev) in case.events.iter().enumerate() {
         match ev[0].atom() {
           "outer" => match parse_outer(&ev[1]) {
